@@ -42,7 +42,9 @@ CFG = {
         dict(test="^TestC01Soup$", checks=(60000, 2000000))]),
     "C02": dict(pkg="core", test="^TestC02$", shards=(1, 1), checks=(1, 1)),
     "C03": dict(pkg="core", test="^TestC03$", shards=(1, 1), checks=(1, 1)),
-    "C04": dict(pkg="core", test="^TestC04$", shards=(8, 16), checks=(600, 12000)),
+    "C04": dict(pkg="core", shards=(8, 16), tests=[
+        dict(test="^TestC04$", checks=(600, 12000)),
+        dict(test="^TestC04Programs$", checks=(20000, 1000000))]),
     "C05": dict(pkg="core", shards=(8, 16), oracle_selfcheck=True, tests=[
         dict(test="^TestC05Step$", checks=(8000, 40000)),
         dict(test="^TestC05Soup$", checks=(40000, 2000000))]),
@@ -68,7 +70,7 @@ CFG = {
     "C16": dict(pkg="core", test="^TestC16$", shards=(1, 1), checks=(1, 1)),
     "C17": dict(pkg="zexchk", test="^TestC17$", shards=(1, 1), checks=(1, 1)),
     "C18": dict(pkg="cpm", test="^TestC18$", shards=(8, 16), checks=(1500, 40000)),
-    "C19": dict(pkg="cim", test="^TestC19$", shards=(8, 16), checks=(60, 2500)),
+    "C19": dict(pkg="cim", test="^TestC19$", shards=(8, 16), checks=(250, 4000)),
 }
 
 LEVEL_DEFAULT = "exploration"
